@@ -361,7 +361,10 @@ class Schedule(Strategy):
                 if (cs.max_power - cs.current_power > self.EPS and
                         remaining_power_on_schedule >= cs.min_power and
                         remaining_power_on_schedule >= vehicle.vehicle_type.min_charging_power and
-                        vehicle.get_delta_soc() > self.EPS):
+                        vehicle.get_delta_soc() > self.EPS and
+                        # offered all remaining power and still nothing charged: retrying is futile
+                        not (avg_power < self.EPS and
+                             power_alloc_for_vehicle >= remaining_power_on_schedule)):
                     vehicles.append((vehicle_id, energy_needed))
 
         # last timestep of core standing time
